@@ -272,6 +272,20 @@ theorem C12_callback_behaviour :
          Out.event 0 0 [(1, 7)], Out.event 1 0 [(1, 7)]] := by
   decide
 
+/-! ### several queries in one PUT (scene writes, also across bridged accessories) -/
+
+/-- A is subscribed to characteristic 0 and has 0 = 10 queued; one PUT writes 0 := 20 and 1 := 10
+    (characteristics 0 and 1 stand for the same iid on two bridged accessories). The stale entry is
+    judged against the characteristic it belongs to, query by query: nothing is delivered, and A's
+    knowledge (its own write) is the current value. -/
+theorem C12_scene_write_discards_per_query :
+    let r := run exCfg12 (init exCfg12)
+      [Ev.connect 0, Ev.verify 0, Ev.data 0 (Req.put 0 (some true) none false), Ev.appSet 0 10,
+       Ev.data 0 (Req.putMany [(0, none, some 20), (1, none, some 10)] false), Ev.timerFire 0]
+    r.2 = [Out.resp 0 0 204 Body.none, Out.resp 0 0 204 Body.none] ∧
+    (r.1.obj 0).learned 0 = some 20 ∧ r.1.value 0 = some 20 ∧ r.1.value 1 = some 10 := by
+  decide
+
 /-! ### non-vacuity -/
 
 /-- the same history on the repaired model: the stale entry is discarded, nothing is sent, and A's
